@@ -183,9 +183,14 @@ package ovsdb
 //@ modifies nothing
 //@ ensures result != nil
 
+// nativeTypeOf(column): the Go type the mapper expects for a column (the value
+// NativeType computes; a function of the column schema object).
+//@ ghost func nativeTypeOf(*ColumnSchema) reflect.Type
 //@ func NativeType
+//@ trusted "nativeTypeOf(column) is by definition the value NativeType computes for the column"
 //@ pure
 //@ may_panic
+//@ ensures result == nativeTypeOf(column)
 //@ func NativeTypeFromAtomic
 //@ trusted "returns the package-level reflect.Type values initialised from reflect.TypeOf(0), 0.0, true, \"\""
 //@ pure
@@ -238,3 +243,19 @@ package ovsdb
 //@ func (*ColumnType).UnmarshalJSON
 //@ requires c != nil
 //@ ensures_ok (c.Key == jsonfield(data, "key", "*BaseType") && c.Value == jsonfield(data, "value", "*BaseType") && c.min == jsonfield(data, "min", "*int")) || (c.Key != nil && fresh(c.Key) && c.Value == old(c.Value) && c.min == old(c.min) && c.max == old(c.max))
+
+// ---- bindings.go (C09): the type gate ------------------------------------------------
+// A native value is converted only when its Go type is exactly the type the
+// column expects; anything else is rejected with an error, never converted.
+//@ func NativeToOvs
+//@ requires column != nil
+//@ may_panic
+//@ ensures_ok dyntype(rawElem) == nativeTypeOf(column)
+//@ func NativeToOvsAtomic
+//@ may_panic
+//@ ensures_ok basicType == "integer" ==> istype(nativeElem, "int")
+//@ ensures_ok basicType == "real" ==> istype(nativeElem, "float64")
+//@ ensures_ok basicType == "boolean" ==> istype(nativeElem, "bool")
+//@ ensures_ok basicType == "string" || basicType == "uuid" ==> istype(nativeElem, "string")
+//@ ensures_ok basicType == "uuid" ==> (istype(result0, "UUID") && unbox(result0, "UUID").GoUUID == unbox(nativeElem, "string"))
+//@ ensures_ok basicType != "uuid" ==> result0 == nativeElem
